@@ -202,7 +202,7 @@ def _run_fuzz(chk, tier, seed, shard, nshards, stats):
         stats.extra[f'fuzz{shard}'] = {
             'executions': d2['extra'].get('fuzz_execs', 0),
             'valid_cases': d2['evaluations'], 'edges_covered': cov,
-            'unreproduced': unrepro}
+            'requested': runs, 'unreproduced': unrepro}
     finally:
         shutil.rmtree(d, ignore_errors=True)
 
@@ -435,6 +435,7 @@ def main(argv=None):
                           's3transfer only)',
                 'campaigns': len(fz),
                 'executions': sum(v['executions'] for v in fz),
+                'executions_requested': sum(v['requested'] for v in fz),
                 'valid_cases': sum(v['valid_cases'] for v in fz),
                 'edges_covered_max': max((v['edges_covered'] or 0)
                                          for v in fz),
